@@ -44,6 +44,21 @@ def main():
         names = [f['name'] for f, _, _ in d_features(d)]
         d['ctcs'] = [{'name': f'c{i}', 'ast': M.random_ctc(run.rng, names, 2)} for i in range(run.rng.randint(1, 2))]
         check_model(run, d)
+    # the documented simple forms (A requires B as REQUIRES / IMPLIES / !A | B / B | !A, excludes as EXCLUDES / !A | !B /
+    # !(A & B)) between every ordered pair of features: constraints a traversal may choose to propagate along
+    for _ in range(120 if quick else 1500):
+        d = M.random_model(run.rng, 7)
+        names = [f['name'] for f, _, _ in d_features(d)]
+        if len(names) < 2:
+            continue
+        a, b = run.rng.sample(names, 2)
+        form = run.rng.choice([['REQUIRES', a, b], ['IMPLIES', a, b], ['OR', ['NOT', a], b], ['OR', b, ['NOT', a]],
+                               ['EXCLUDES', a, b], ['OR', ['NOT', a], ['NOT', b]], ['NOT', ['AND', a, b]], ['IMPLIES', a, ['NOT', b]]])
+        d['ctcs'] = [{'name': 'c0', 'ast': form}]
+        if run.rng.random() < 0.3:
+            c, e = run.rng.sample(names, 2)
+            d['ctcs'].append({'name': 'c1', 'ast': run.rng.choice([['REQUIRES', c, e], ['OR', e, ['NOT', c]]])})
+        check_model(run, d)
     # histories: one operation object over several models; the same model after an in-place edit
     for _ in range(60 if quick else 600):
         op = FMCoreFeatures()
